@@ -111,6 +111,12 @@ class CoordinationSystem:
             except Exception as e:
                 raise WorkError(f"Work failed: {e}")
 
+            # Only None means "no validation": a validator object that happens to
+            # be falsy (a callable rule container with no rules of its own, i.e.
+            # __len__() == 0) must still be asked
+            if validate_fn is not None and not validate_fn:
+                validate_fn = (lambda fn: lambda value: fn(value))(validate_fn)
+
             # S -> G2
             checkpoint_result = self.controller.advance(ctx)
             if checkpoint_result != CheckpointResult.PASSED:
